@@ -62,7 +62,7 @@ def binEval (op : BOp) (w a b : Nat) : Nat :=
   | .or => a ||| b
   | .xor => a ^^^ b
   | .shl => if b ≥ w then 0 else (a * 2 ^ b) % 2 ^ w
-  | .shr => a / 2 ^ b
+  | .shr => if b ≥ w then 0 else a / 2 ^ b   -- operands of a well-typed expression are < 2^w, so this is a >> b
   | .eq => if a = b then 1 else 0
   | .ne => if a = b then 0 else 1
   | .lt => if a < b then 1 else 0
